@@ -51,7 +51,7 @@ func writeHistory(w *vWorld, devName string, ops []mOp) (*vDevice, *GroupContext
 	wr.refs = append(wr.refs, ref.String())
 	var shape []string
 	for _, e := range ms.OpLog().Values().Slice() {
-		ev, _, err := openMetadataEntry(ms.OpLog(), e, gc.Group())
+		ev, _, err := vOpenMetadataEntry(ms.OpLog(), e, gc.Group())
 		vmust(err)
 		ref.applyEvent(ev)
 		wr.refs = append(wr.refs, ref.String())
